@@ -240,14 +240,31 @@ func ruleWriter2Split(c *Ctx, r *Report, prefix string) {
 		for _, ins := range b.Instrs {
 			if sl, ok := ins.(*ssa.Slice); ok && stripConv(sl.X) == ssa.Value(pParam) && sl.High != nil {
 				nSlice++
-				// high = low + budget
-				hi, isAdd := stripConv(sl.High).(*ssa.BinOp)
-				good := false
-				if isAdd && hi.Op == token.ADD && sl.Low != nil {
-					if (hi.X == sl.Low && isBudget(hi.Y)) || (hi.Y == sl.Low && isBudget(hi.X)) {
-						good = true
+				// high = low + budget, possibly clamped to len(p) (a phi of the two)
+				var highOK func(v ssa.Value, depth int) bool
+				highOK = func(v ssa.Value, depth int) bool {
+					v = stripConv(v)
+					if depth > 4 || sl.Low == nil {
+						return false
 					}
+					switch x := v.(type) {
+					case *ssa.BinOp:
+						return x.Op == token.ADD && ((x.X == sl.Low && isBudget(x.Y)) || (x.Y == sl.Low && isBudget(x.X)))
+					case *ssa.Call:
+						if bi, isB := x.Call.Value.(*ssa.Builtin); isB && bi.Name() == "len" {
+							return stripConv(x.Call.Args[0]) == ssa.Value(pParam)
+						}
+					case *ssa.Phi:
+						for _, e := range x.Edges {
+							if !highOK(e, depth+1) {
+								return false
+							}
+						}
+						return len(x.Edges) > 0
+					}
+					return false
 				}
+				good := highOK(sl.High, 0)
 				if !good {
 					okSlice = false
 					badSlice = "the part of p handed to the encoder at " + c.InstrPos(ins) + " is not p[n : n+m] with m = maxUncompressed - written(): from the second chunk of one Write on the bounds are wrong"
